@@ -78,6 +78,17 @@ func (s *badgerStore) CheckAndSaveNonce(ID string, nonce int64) error {
 	})
 }
 
+// updateRetry runs fn in an update transaction, again if it conflicted with a
+// concurrent transaction: balance increments must not be lost (or fail) just
+// because two of them touched the same balance at the same time.
+func (s *badgerStore) updateRetry(fn func(txn *badger.Txn) error) error {
+	for {
+		if err := s.db.Update(fn); err != badger.ErrConflict {
+			return err
+		}
+	}
+}
+
 // GetNodeBalance returns the current account balance for a node.
 func (s *badgerStore) GetNodeBalance(nodeID store.NodeID) (store.Balance, error) {
 	accountKey := []byte(fmt.Sprintf("vip:account:%s", nodeID))
@@ -113,7 +124,7 @@ func (s *badgerStore) GetNodeBalance(nodeID store.NodeID) (store.Balance, error)
 // that get migrated later.
 func (s *badgerStore) AddNodeBalance(nodeID store.NodeID, credit *big.Int) error {
 	accountKey := []byte(fmt.Sprintf("vip:account:%s", nodeID))
-	return s.db.Update(func(txn *badger.Txn) error {
+	return s.updateRetry(func(txn *badger.Txn) error {
 		var account store.Account
 		balanceKey := []byte(fmt.Sprintf("vip:trial:%s", nodeID))
 		if err := getItem(txn, accountKey, &account); err == badger.ErrKeyNotFound {
@@ -155,7 +166,7 @@ func (s *badgerStore) GetAccountBalance(account store.Account) (store.Balance, e
 
 // AddNodeBalance adds credit to an account balance. (Can be negative)
 func (s *badgerStore) AddAccountBalance(account store.Account, credit *big.Int) error {
-	return s.db.Update(func(txn *badger.Txn) error {
+	return s.updateRetry(func(txn *badger.Txn) error {
 		balanceKey := []byte(fmt.Sprintf("vip:balance:%s", account))
 		var balance store.Balance
 		if err := getItem(txn, balanceKey, &balance); err == badger.ErrKeyNotFound {
